@@ -129,6 +129,10 @@ int main(int argc, char** argv) {
       if (!hc_exc[0]) HC_TRY(h1 = hash(vals[b]); h2 = hash(vals[a]); e = eq(vals[a], vals[b]));
       ev_begin("assign"); ev_val("a", vals[b]); ev_val("b", vals[a]); ev_limbs("h", h1); ev_limbs("h2", h2); ev_int("eq", e);
       ev_str("exc", hc_exc); ev_int("line", cur_line); ev_end();
+    } else if (hc_is(0, "same")) {
+      volatile uint64_t h1 = 0, h2 = 0; volatile int e1 = -1, e2 = -1;
+      HC_TRY(e1 = eq(vals[a], vals[b]); e2 = eq(vals[b], vals[a]); h1 = hash(vals[a]); h2 = hash(vals[b]));
+      ev_begin("same"); ev_int("eq", e1); ev_int("eqr", e2); ev_limbs("h", h1); ev_limbs("h2", h2); ev_str("exc", hc_exc); ev_int("line", cur_line); ev_end();
     } else if (hc_is(0, "swap")) {
       ev_begin("swap"); ev_val("a0", vals[a]); ev_val("b0", vals[b]);
       HC_TRY(swap(vals[a], vals[b]));
